@@ -510,24 +510,51 @@ def execute(n_ep, opens, ops, rig):
         src_count = [0]
         msg_count = 0
 
+        # Handlers with an even index are plain functions (one object per index); handlers with an odd index are BOUND
+        # METHODS of one recorder object per index, taken afresh at every registration: `rec.on_message` is a new
+        # method object each time, equal (==) to the earlier ones but not identical.  Registering "the same handler"
+        # again means registering an EQUAL callable, which is how a caller holding an object naturally writes it.
+        class _SinkRec:
+            def __init__(self, i):
+                self.i = i
+
+            def on_message(self, m):
+                log.append(("sink", self.i, m))
+
+        class _SrcRec:
+            def __init__(self, i):
+                self.i = i
+
+            def read(self):
+                src_count[0] += 1
+                v = "s%d.%d" % (self.i, src_count[0])
+                log.append(("src", self.i, v))
+                return v
+
         def sink_fn(i):
             f = sink_fns.get(i)
             if f is None:
-                def f(m, _i=i):
-                    log.append(("sink", _i, m))
+                if isinstance(i, int) and i % 2 == 1:
+                    f = _SinkRec(i)
+                else:
+                    def f(m, _i=i):
+                        log.append(("sink", _i, m))
                 sink_fns[i] = f
-            return f
+            return f.on_message if isinstance(f, _SinkRec) else f
 
         def src_fn(i):
             f = src_fns.get(i)
             if f is None:
-                def f(_i=i):
-                    src_count[0] += 1
-                    v = "s%d.%d" % (_i, src_count[0])
-                    log.append(("src", _i, v))
-                    return v
+                if isinstance(i, int) and i % 2 == 1:
+                    f = _SrcRec(i)
+                else:
+                    def f(_i=i):
+                        src_count[0] += 1
+                        v = "s%d.%d" % (_i, src_count[0])
+                        log.append(("src", _i, v))
+                        return v
                 src_fns[i] = f
-            return f
+            return f.read if isinstance(f, _SrcRec) else f
 
         for idx, op in enumerate(ops):
             kind = op[0]
